@@ -22,7 +22,7 @@ def features(sql, dialect):
     f = {"mixed_comma_join_names": set(), "select_subquery_tables": set(), "lateral_view_aliases": set(),
          "rename_old": set(), "rename_new": set(), "having_subquery_tables": set(), "parsed": False,
          "stmt_types": [], "same_alias_subqueries": set(), "case_subquery": False, "n_rename_pairs": 0,
-         "case_subquery_aliases": set(), "subquery_aliases": set(), "select_has_subquery": False, "same_text_subqueries": False, "nested_group_first_aliases": set(), "cte_paren_setop_names": set(), "where_has_subquery": False, "select_subquery_aliases": set(), "fullname_schemas": set(), "select_subquery_fullname_schemas": set(), "repeated_subquery_item_aliases": set(), "update_first_table_aliases": set()}
+         "case_subquery_aliases": set(), "subquery_aliases": set(), "select_has_subquery": False, "same_text_subqueries": False, "nested_group_first_aliases": set(), "cte_paren_setop_names": set(), "where_has_subquery": False, "select_subquery_aliases": set(), "fullname_schemas": set(), "select_subquery_fullname_schemas": set(), "repeated_subquery_item_aliases": set(), "update_first_table_aliases": set(), "table_function_aliases": set()}
     try:
         tree = Linter(config=FluffConfig(overrides={"dialect": d})).parse_string(sql).tree
     except Exception:
@@ -97,6 +97,13 @@ def features(sql, dialect):
             ids = [x for x in a0.segments if x.type in ("identifier", "naked_identifier", "quoted_identifier")]
             if ids:
                 f["update_first_table_aliases"].add(_esc(ids[-1].raw))
+    # FROM generate_series(1, 3) AS g(x) / unnest(...) AS u: alias of a table function
+    for fee in tree.recursive_crawl("from_expression_element"):
+        te = fee.get_child("table_expression")
+        if te is not None and te.get_child("function") is not None:
+            a = alias_of(fee)
+            if a:
+                f["table_function_aliases"].add(a)
     item_aliases = []
     for sce in tree.recursive_crawl("select_clause_element"):
         if any(True for _ in sce.recursive_crawl("select_statement")):
